@@ -248,28 +248,30 @@ def main(argv: list[str]) -> int:
         for s in range(ns):
             tasks.append((prop, l.name, tier, seed, s, ns))
     budget_s = max(l.timeout[tier] for l in legs) if legs else 60
+    ex = ProcessPoolExecutor(max_workers=NCPU, mp_context=mp.get_context("spawn"), initializer=_worker_init)
     try:
-        with ProcessPoolExecutor(max_workers=NCPU, mp_context=mp.get_context("spawn"), initializer=_worker_init) as ex:
-            futs = {ex.submit(_task, *t): t for t in tasks}
-            try:
-                for fu in as_completed(futs, timeout=budget_s):
-                    try:
-                        merge(fu.result())
-                    except BrokenProcessPool:
-                        raise
-                    except Exception:
-                        harness_errors.append(f"task {futs[fu][1:]}: " + traceback.format_exc(limit=8))
-            except TimeoutError:
-                harness_errors.append(f"time budget of {budget_s}s exhausted (inconclusive, not a violation)")
-                for fu in futs:
-                    fu.cancel()
-                for p in list(getattr(ex, "_processes", {}).values()):
-                    try:
-                        p.kill()
-                    except Exception:
-                        pass
+        futs = {ex.submit(_task, *t): t for t in tasks}
+        try:
+            for fu in as_completed(futs, timeout=budget_s):
+                try:
+                    merge(fu.result())
+                except BrokenProcessPool:
+                    raise
+                except Exception:
+                    harness_errors.append(f"task {futs[fu][1:]}: " + traceback.format_exc(limit=8))
+        except TimeoutError:
+            harness_errors.append(f"time budget of {budget_s}s exhausted (inconclusive, not a violation)")
     except BrokenProcessPool:
         harness_errors.append("worker process died: " + traceback.format_exc(limit=4))
+    finally:
+        procs = list(getattr(ex, "_processes", {}).values())
+        ex.shutdown(wait=not harness_errors, cancel_futures=True)
+        if harness_errors:
+            for p in procs:
+                try:
+                    p.kill()
+                except Exception:
+                    pass
 
     # verdicts
     rc = 0
